@@ -62,6 +62,17 @@ def freeze(o, sort_keys=True):
     return o
 
 
+def _reject_non_finite(o) -> None:
+    if isinstance(o, dict):
+        for v in o.values():
+            _reject_non_finite(v)
+    elif isinstance(o, (list, tuple)):
+        for v in o:
+            _reject_non_finite(v)
+    elif type(o) is float and (o != o or o in (float("inf"), float("-inf"))):
+        raise ValueError("Out of range float values are not JSON compliant")
+
+
 class FakeJson:
     import json as _real
 
@@ -69,6 +80,8 @@ class FakeJson:
 
     @staticmethod
     def dumps(obj, sort_keys=False, **kw):
+        if kw.get("allow_nan") is False:
+            _reject_non_finite(obj)  # json.dumps(allow_nan=False) raises ValueError on nan / +-inf
         return _tok(("json", freeze(obj, sort_keys)))
 
     @staticmethod
